@@ -451,3 +451,6 @@ func C04_UpdateCtx() { focus = "C04"; sceneCtxMsg(opUpdate, cmOne) }
 
 // C06: "its current price" is the price the binding publishes: the stored price terms follow every update
 func C06_UpdateBinding() { focus = "C06"; sceneBindingMsg(opUpdBinding, bmPlain) }
+
+// C09: the reset of all contexts at zero-height preparation rewrites every context record
+func C09_Genesis() { focus = "C09"; sceneGenesis(gnQuick) }
